@@ -286,12 +286,21 @@ impl Walrus {
             debug_print!("[recovery] file {}", file_path);
 
             let mut block_offset: u64 = 0;
+            // Empty units seen since the last recovered block of this file. They only count
+            // towards the synthetic block ids if a written block follows them in the same file
+            // (then they were handed out by the allocator); trailing ones were never allocated.
+            let mut skipped_units: usize = 0;
             while block_offset + DEFAULT_BLOCK_SIZE <= MAX_FILE_SIZE {
-                // heuristic: if first bytes are zero, assume no more blocks
+                // A unit whose first bytes are zero holds no entries. It is not necessarily the
+                // end of the file's blocks: a block that was handed out but never written (its
+                // first append failed or was rolled back) is all zero too, and blocks allocated
+                // after it must still be recovered. Skip it; probing every unit is cheap.
                 let mut probe = [0u8; 8];
                 mmap.read(block_offset as usize, &mut probe);
                 if probe.iter().all(|&b| b == 0) {
-                    break;
+                    block_offset += DEFAULT_BLOCK_SIZE;
+                    skipped_units += 1;
+                    continue;
                 }
 
                 let mut used: u64 = 0;
@@ -303,7 +312,7 @@ impl Walrus {
                 let meta_len = (meta_buf[0] as usize) | ((meta_buf[1] as usize) << 8);
                 if meta_len == 0 || meta_len > PREFIX_META_SIZE - 2 {
                     block_offset += DEFAULT_BLOCK_SIZE;
-                    next_block_id += 1;
+                    skipped_units += 1;
                     continue;
                 }
                 let mut aligned = rkyv::AlignedVec::with_capacity(meta_len);
@@ -321,11 +330,24 @@ impl Walrus {
                 };
                 let col_name = md.owned_by;
 
+                // A block sized for a large entry spans several units; every entry header
+                // records where its block ends. Without this, the units after the first are
+                // scanned as if they started blocks of their own and the entries that follow
+                // the large one in the same block are lost.
+                let mut block_limit = DEFAULT_BLOCK_SIZE;
+                if md.next_block_start > block_offset {
+                    let span = md.next_block_start - block_offset;
+                    if span % DEFAULT_BLOCK_SIZE == 0 && block_offset + span <= MAX_FILE_SIZE {
+                        block_limit = span;
+                    }
+                }
+
                 // scan entries to compute used
+                let this_block_id = next_block_id + skipped_units;
                 let block_stub = Block {
-                    id: next_block_id as u64,
+                    id: this_block_id as u64,
                     offset: block_offset,
-                    limit: DEFAULT_BLOCK_SIZE,
+                    limit: block_limit,
                     used: 0,
                     file_path: file_path.clone(),
                     mmap: mmap.clone(),
@@ -337,7 +359,7 @@ impl Walrus {
                             used += consumed as u64;
                             in_block_off += consumed as u64;
                             entries_in_block = entries_in_block.saturating_add(1);
-                            if in_block_off >= DEFAULT_BLOCK_SIZE {
+                            if in_block_off >= block_limit {
                                 break;
                             }
                         }
@@ -345,13 +367,18 @@ impl Walrus {
                     }
                 }
                 if used == 0 {
-                    break;
+                    // no valid entry at the start of this unit: skip it like an empty one
+                    block_offset += DEFAULT_BLOCK_SIZE;
+                    skipped_units += 1;
+                    continue;
                 }
+                next_block_id = this_block_id;
+                skipped_units = 0;
 
                 let block = Block {
                     id: next_block_id as u64,
                     offset: block_offset,
-                    limit: DEFAULT_BLOCK_SIZE,
+                    limit: block_limit,
                     used,
                     file_path: file_path.clone(),
                     mmap: mmap.clone(),
@@ -374,7 +401,7 @@ impl Walrus {
                     );
                 }
                 next_block_id += 1;
-                block_offset += DEFAULT_BLOCK_SIZE;
+                block_offset += block_limit;
             }
         }
 
